@@ -73,10 +73,12 @@ def prun(seed_dir, props=None, tier="quick"):
         if rc:
             return {"error": "patch does not apply: " + out}
         shutil.rmtree(base + "/repo/.git", ignore_errors=True)
+        # private copy of the build caches: parallel runs from different source paths clobber a shared target dir
+        sh("cp -a %s %s/cache" % (os.path.join(VERIF, ".cache"), base))
         for p in props:
             t0 = time.time()
             rc, out = sh([os.path.join(VERIF, "check"), p, "--tier", tier], cwd=VERIF, timeout=7200,
-                         env={"VERIF_REPO": base + "/repo", "VERIF_OUT_DIR": base + "/out"})
+                         env={"VERIF_REPO": base + "/repo", "VERIF_OUT_DIR": base + "/out", "VERIF_CACHE": base + "/cache"})
             lines = [l for l in out.splitlines() if l.startswith(("VIOLATION", "KNOWN-FINDING", "UNDECIDED", "OK", "  - "))]
             res[p] = {"exit": rc, "lines": [l[:300] for l in lines][:12], "wall_s": round(time.time() - t0, 1)}
     finally:
